@@ -4,9 +4,7 @@ From Verif Require Import Json Outcome Match PatIndex State Location SysOps Corr
     memory and storage with different values, in both state kinds. *)
 Definition same_id_adds_can_diverge := same_id_adds_can_diverge_counterexample.
 Definition same_id_divergence_count := ConcProofs.same_id_divergence_count.
-(** D52: the exception lists of the lock-table theorems are tight (every entry occurs in the source). *)
-Definition unlocked_exceptions_real := unlocked_exceptions_real_true.
-Definition read_locked_mutation_exceptions_real := read_locked_mutation_exceptions_real_true.
+(** (D52 is repaired: the lock-table theorems of C12.v have no exception list left.) *)
 Definition oracle_accepts_somewhere := lin_example_linearizable.
 Definition oracle_rejects_somewhere := lin_example_not_linearizable.
 Definition storage_disagreement_rejected := lin_example_storage_disagrees.
